@@ -1,0 +1,20 @@
+//go:build verif
+
+package io
+
+// Contracts for the gowp verifier (/verif). Comment-only file.
+
+// Ghost state of the bufio.Scanner model (see /verif/engine lib.go): tokens left to scan,
+// and whether the scan stopped because of an error rather than at the end of the input.
+//@ ghost var $scanRem Int
+//@ ghost var $scanFailed Bool
+
+//@ props C15 C05 C08
+//@ func ReadIntoGraph
+//@   opt terminates
+//@   requires g != nil && b != nil
+//@   modifies $added
+//@   ensures[count-is-triples-added] result0 == $added - old($added)
+//@   ensures[no-silent-truncation] result1 == nil ==> !$scanFailed
+//@   loop 0 invariant[count] cnt == $added - old($added)
+//@   loop 0 decreases $scanRem
